@@ -204,15 +204,15 @@ func runC03(c *Ctx, r *Rec) {
 				}
 			}
 			foundEdge := func(cond ast.Expr, pol bool) bool {
-					cd := ast.Unparen(cond)
-					if u, ok := cd.(*ast.UnaryExpr); ok && u.Op == token.NOT {
-						cd, pol = ast.Unparen(u.X), !pol
-					}
-					if id, ok := cd.(*ast.Ident); ok && okObj != nil && info.Uses[id] == okObj {
-						return pol // only follow the edge on which the key was found
-					}
-					return true
+				cd := ast.Unparen(cond)
+				if u, ok := cd.(*ast.UnaryExpr); ok && u.Op == token.NOT {
+					cd, pol = ast.Unparen(u.X), !pol
 				}
+				if id, ok := cd.(*ast.Ident); ok && okObj != nil && info.Uses[id] == okObj {
+					return pol // only follow the edge on which the key was found
+				}
+				return true
+			}
 			found, _ := g.exists(pathQuery{from: point{g.entry(), 0},
 				stop:     func(n ast.Node) bool { return containsNode(n, rem.node) },
 				goalNode: func(n ast.Node) bool { return containsNode(n, del.node) && !containsNode(n, rem.node) },
